@@ -19,4 +19,4 @@ def run(ctx):
                             inv=[], props=["C47_SuccessGuard"])
     if not q:
         fam.mc(ctx, "MC W=2 C47W2 (faults, answers merged with execution)", 2, "C47W2")
-    fam.drive(ctx, "C47", [("single", 220 if q else 5000), ("conc", 40 if q else 1200)])
+    fam.drive(ctx, "C47", [("single", 300 if q else 5000), ("conc", 60 if q else 1200)])
